@@ -145,6 +145,7 @@ def r_parens(ctx):
 def check(ctx):
     from . import c04
     c04.r_grammar_words(ctx, 'R17.4')
+    c04.r_reviewed_grammar(ctx, 'R17.6', mention={'identifier', 'witness_name', 'function_name', 'alias_name', 'builtin_type', 'builtin_function', 'builtin_alias', 'jet', 'fn_keyword', 'let_keyword', 'match_keyword', 'type_keyword', 'mod_keyword', 'const_keyword', 'module_name', 'single_expression', 'ty', 'call_name', 'expression', 'pattern', 'match_pattern'})
     r_capture(ctx)
     r_names_raw(ctx)
     r_parens(ctx)
